@@ -435,3 +435,134 @@ Section MultiLine.
     rewrite <- E. apply join_split_lf.
   Qed.
 End MultiLine.
+
+(* ------------------------------------------------------------------ the block form *)
+
+Lemma indent_text_ws p level : su_is_ws_line p = true -> su_is_ws_line (se_indent_text p level) = true.
+Proof.
+  intros Hp. unfold se_indent_text. apply N.iter_invariant; [|reflexivity].
+  intros acc Hacc. unfold su_is_ws_line in *. now rewrite forallb_app, Hp, Hacc.
+Qed.
+
+Lemma block_lines_ok p level lines :
+  se_block_lines {| se_prefix := Some p; se_level := level |} lines =
+  SuOk (flat_map (piece (se_indent_text p level)) lines).
+Proof.
+  induction lines as [|l lines IH]; [reflexivity|].
+  cbn [se_block_lines flat_map]. rewrite IH. destruct l; reflexivity.
+Qed.
+
+Lemma ends_with_snoc ch s z : se_ends_with ch (s ++ [z]) = (z =? ch).
+Proof. unfold se_ends_with. rewrite rev_app_distr. reflexivity. Qed.
+
+(* the printed block string: shape, validity of the body, and its decoded value *)
+Theorem block_form_body p level s :
+  su_is_ws_line p = true -> se_can_be_block_string s = true ->
+  exists body,
+    se_serialize_block_string {| se_prefix := Some p; se_level := level |} (mem c_lf s) s
+      = SuOk (sl_qqq ++ body ++ sl_qqq) /\
+    BlockRawValue body (su_replace_esc3 body) /\
+    su_unescape_block_string body = SuOk s.
+Proof.
+  intros Hp Hcan. set (I := se_indent_text p level).
+  pose proof (indent_text_ws p level Hp) as HI. fold I in HI.
+  unfold se_serialize_block_string. destruct (se_multi_line (mem c_lf s) s) eqn:M; cbn [negb].
+  - (* several lines *)
+    rewrite block_lines_ok. fold I. cbn [su_bind se_require_new_line se_prefix se_level]. fold I.
+    exists (flat_map (piece I) (se_split_lf s) ++ [c_lf] ++ I).
+    split; [unfold se_qqq_text, sl_qqq; now rewrite <- !app_assoc|].
+    assert (Hc : BlockChars [34; 34; 34] (flat_map (piece I) (se_split_lf s) ++ [c_lf] ++ I)
+                   (flat_map (rpiece I) (se_split_lf s) ++ [c_lf] ++ I)).
+    { apply pieces_chars; [exact HI| |reflexivity].
+      apply BlockChars_plain. cbn [app forallb]. rewrite (ws_plain _ HI). reflexivity. }
+    split.
+    + unfold BlockRawValue. rewrite <- (BlockChars_R _ _ _ Hc). exact Hc.
+    + rewrite (block_string_value _ _ Hc). f_equal. apply (bsv_multi I HI s Hcan).
+  - (* one line *)
+    unfold se_multi_line in M. apply orb_false_iff in M as [M H92]. apply orb_false_iff in M as [M H34].
+    apply orb_false_iff in M as [Hlf _].
+    destruct (can_be_inv _ Hcan) as [Hcr [first [rest [E [Hf _]]]]].
+    rewrite (split_lf_single _ Hlf) in E. injection E as <- <-.
+    assert (Hne : s <> []) by (intros ->; discriminate).
+    destruct (exists_last Hne) as [s' [z ->]]. rewrite ends_with_snoc in H34, H92.
+    exists (se_serialize_line 0 (s' ++ [z])). split; [reflexivity|].
+    pose proof (ser_line_chars_end [34; 34; 34] s' z H34 H92) as Hc.
+    split.
+    + unfold BlockRawValue. rewrite <- (BlockChars_R _ _ _ Hc). exact Hc.
+    + rewrite (block_string_value _ _ Hc). f_equal. apply bsv_single; [split; assumption|exact Hf].
+Qed.
+
+Theorem block_form_roundtrip p level s :
+  su_is_ws_line p = true -> se_can_be_block_string s = true ->
+  exists lit body,
+    se_serialize_block_string {| se_prefix := Some p; se_level := level |} (mem c_lf s) s = SuOk lit /\
+    sl_classify_literal lit = SlBlock body /\
+    su_unescape_block_string body = SuOk s /\
+    su_string_of_token lit = SuOk s.
+Proof.
+  intros Hp Hcan. destruct (block_form_body p level s Hp Hcan) as [body [E [Hraw Hv]]].
+  exists (sl_qqq ++ body ++ sl_qqq), body. split; [exact E|].
+  assert (V : sl_block_body_valid body = true) by (apply block_body_valid_iff; eauto).
+  split; [apply classify_block_intro; exact V|]. split; [exact Hv|].
+  rewrite string_of_block_token. exact Hv.
+Qed.
+
+(* ------------------------------------------------------------------ whichever form is chosen *)
+
+Definition ws_prefix (st : se_state) : Prop :=
+  match se_prefix st with Some p => su_is_ws_line p = true | None => True end.
+
+Definition valid_literal (lit : str) : Prop := sl_classify_literal lit <> SlInvalid.
+
+Theorem string_value_roundtrip st is_description s :
+  ws_prefix st ->
+  exists lit, se_serialize_string_value st is_description s = SuOk lit /\
+              valid_literal lit /\ su_string_of_token lit = SuOk s.
+Proof.
+  intros Hws. unfold se_serialize_string_value.
+  destruct (se_newlines_enabled st && (is_description || mem c_lf s) && se_can_be_block_string s) eqn:C.
+  - apply andb_true_iff in C as [C Hcan]. apply andb_true_iff in C as [Hnl _].
+    destruct st as [[p|] level]; [|discriminate]. unfold ws_prefix in Hws. cbn [se_prefix] in Hws.
+    destruct (block_form_roundtrip p level s Hws Hcan) as [lit [body [E [Hc [_ Hv]]]]].
+    exists lit. split; [exact E|]. split; [unfold valid_literal; rewrite Hc; discriminate|exact Hv].
+  - exists (se_quoted_form s). split; [reflexivity|].
+    destruct (quoted_form_roundtrip s) as [Hc Hv].
+    split; [unfold valid_literal; rewrite Hc; discriminate|exact Hv].
+Qed.
+
+Theorem description_roundtrip st d :
+  ws_prefix st ->
+  exists lit sep, se_serialize_description st (Some d) = SuOk (lit, sep) /\
+                  valid_literal lit /\ su_string_of_token lit = SuOk d.
+Proof.
+  intros Hws. destruct (string_value_roundtrip st true d Hws) as [lit [E [Hv Hs]]].
+  exists lit, (se_new_line_common st true). unfold se_serialize_description. rewrite E. auto.
+Qed.
+
+(* ------------------------------------------------------------------ statements collected for Props/C09.v *)
+
+Theorem quoted_form_full s :
+  sl_classify_literal (se_quoted_form s) = SlQuoted (flat_map se_escape_char s) /\
+  su_unescape_string (flat_map se_escape_char s) = SuOk s /\
+  su_string_of_token (se_quoted_form s) = SuOk s.
+Proof.
+  destruct (quoted_form_roundtrip s) as [C V]. destruct (quoted_body_ok s) as [_ U]. auto.
+Qed.
+
+(* the value any parser that follows the specification reads back from the chosen literal *)
+Definition spec_value (lit v : str) : Prop :=
+  (exists body, sl_classify_literal lit = SlQuoted body /\ StringChars body v) \/
+  (exists body raw, sl_classify_literal lit = SlBlock body /\ BlockRawValue body raw /\ bs_BlockStringValue raw = v).
+
+Theorem string_value_spec_roundtrip st is_description s :
+  ws_prefix st ->
+  exists lit, se_serialize_string_value st is_description s = SuOk lit /\ spec_value lit s.
+Proof.
+  intros Hws. destruct (string_value_roundtrip st is_description s Hws) as [lit [E [Hv Hs]]].
+  exists lit. split; [exact E|]. unfold valid_literal in Hv. unfold spec_value.
+  destruct (sl_classify_literal lit) as [body|body|] eqn:C; [| |congruence].
+  - left. exists body. split; [reflexivity|].
+    destruct (literal_quoted_value _ _ C) as [v [E1 Hsc]]. rewrite Hs in E1. injection E1 as <-. exact Hsc.
+  - right. destruct (literal_block_value _ _ C) as [raw [Hraw E1]]. rewrite Hs in E1. injection E1 as E1.
+    exists body, raw. auto.
+Qed.
